@@ -1,4 +1,4 @@
-//! Single faults of classes F1–F4 on a fixture: exhaustive enumeration, application,
+//! Single faults of classes F1–F5 on a fixture: exhaustive enumeration, application,
 //! classification (table / role for keys and histograms) and evaluation
 //! (`violation ⇔ accepted ∧ ¬reference-predicate`).
 
@@ -8,7 +8,7 @@ use p3_field::{BasedVectorSpace, PrimeCharacteristicRing};
 use serde_json::{Value, json};
 
 use crate::backend::{Backend, CellEdit, Verdict};
-use crate::exec::{Change, Deviation, Inputs, Port};
+use crate::exec::{Change, Deviation, INHERITED, Inputs, Port};
 use crate::fields::{self, Loc};
 use crate::fixture::{Definer, Fixture};
 use crate::predicate::{Pred, alu_used_ports};
@@ -24,12 +24,35 @@ pub enum Fault {
     F2Sibling { op_id: u32, limb: usize },
     /// slot value +1 in every row scalar that mentions it, nothing recomputed
     F3 { slot: u32, unit: usize },
-    /// one input port of one op reads value+1; the op's result is recomputed and propagated
+    /// one input port of one op reads value+1; the op's result is recomputed and propagated.
+    ///
+    /// Class **F5** is carried by this variant with `port = Port::In(limb, INHERITED)` (see
+    /// [`Fault::f5`]; a marker rather than a new variant because check crates match `Fault`
+    /// exhaustively): input limb `limb` of permutation op `op` has NO witness slot — the row
+    /// inherits it from the previous row of its chain inside the table (sponge: every un-fed
+    /// limb of a chained row; arity-2 Merkle: the running digest; `new_start` sponge rows: the
+    /// zero of an un-fed limb). The limb takes value+1 (coefficient `unit`), the row is
+    /// re-executed by the repository's executor from the deviated state, and its outputs are
+    /// propagated: rows that inherit from it, slots fed by `out_ctl`, dependent ops.
     F4 { op: usize, port: Port, unit: usize },
 }
 
 impl Fault {
+    /// class F5: slot-less (inherited) input limb `limb` of permutation op `op` += basis unit
+    pub fn f5(op: usize, limb: usize, unit: usize) -> Fault {
+        Fault::F4 { op, port: Port::In(limb, INHERITED), unit }
+    }
+    /// `(op, limb, unit)` if this is a class-F5 fault
+    pub fn as_f5(&self) -> Option<(usize, usize, usize)> {
+        match self {
+            Fault::F4 { op, port: Port::In(limb, e), unit } if *e == INHERITED => Some((*op, *limb, *unit)),
+            _ => None,
+        }
+    }
     pub fn class(&self) -> &'static str {
+        if self.as_f5().is_some() {
+            return "F5";
+        }
         match self {
             Fault::F1 { .. } => "F1",
             Fault::F2 { .. } | Fault::F2Sibling { .. } => "F2",
@@ -38,6 +61,9 @@ impl Fault {
         }
     }
     pub fn to_json(&self) -> Value {
+        if let Some((op, limb, unit)) = self.as_f5() {
+            return json!({"class":"F5","op":op,"limb":limb,"unit":unit});
+        }
         match self {
             Fault::F1 { table, row, col } => json!({"class":"F1","table":table,"row":row,"col":col}),
             Fault::F2 { slot, unit } => json!({"class":"F2","slot":slot,"unit":unit}),
@@ -76,6 +102,7 @@ impl Fault {
                 slot: u("slot")? as u32,
                 unit: u("unit")?,
             },
+            "F5" => Fault::f5(u("op")?, u("limb")?, u("unit")?),
             "F4" => Fault::F4 {
                 op: u("op")?,
                 port: match v.get("port")?.as_str()? {
@@ -167,6 +194,106 @@ impl<B: Backend> Fixture<B> {
             Op::Hint { .. } => "hint".into(),
             Op::NonPrimitiveOpWithExecutor { executor, .. } => executor.op_type().as_str().to_string(),
         }
+    }
+
+    /// Row of the permutation table that op `oi` produces (rows are recorded in op order).
+    fn perm_row_of_op(&self, oi: usize) -> Option<usize> {
+        let Op::NonPrimitiveOpWithExecutor { executor, .. } = self.circuit.ops.get(oi)? else {
+            return None;
+        };
+        if Some(executor.op_type()) != crate::backend::poseidon_op_type::<B>().as_ref() {
+            return None;
+        }
+        Some(
+            self.circuit.ops[..oi]
+                .iter()
+                .filter(|o| matches!(o, Op::NonPrimitiveOpWithExecutor { executor: e, .. } if e.op_type() == executor.op_type()))
+                .count(),
+        )
+    }
+
+    /// Slot-less input limbs of permutation op `oi` whose value the TABLE must fix (class F5):
+    /// `(limb, committed position, role)`. `limb` indexes the op's `inputs` (executor state
+    /// before a Merkle direction swap), `position` the limb of the committed row.
+    ///  * chained sponge row: every un-fed limb inherits the previous output (rate and capacity),
+    ///  * chained arity-2 Merkle row: un-fed limbs below `rate_ext` are the running digest; the
+    ///    other half is the private sibling (class F2, a free choice of the prover) — skipped,
+    ///  * `new_start` sponge row: an un-fed limb is zero (plus the absorb-length tag on D=1 rows),
+    ///  * `new_start` Merkle rows and arity-4 shapes (not in any backend): none.
+    fn slotless_limbs(&self, oi: usize) -> Vec<(usize, usize, &'static str)> {
+        let Some(row) = self.perm_row_of_op(oi) else {
+            return vec![];
+        };
+        let (Some(cfg), Some(r)) = (
+            B::poseidon_config(),
+            fields::poseidon_rows::<B>(&self.honest).and_then(|p| p.operations.get(row)),
+        ) else {
+            return vec![];
+        };
+        let Op::NonPrimitiveOpWithExecutor { inputs, .. } = &self.circuit.ops[oi] else {
+            return vec![];
+        };
+        if cfg.is_arity4_shape() || (r.merkle_path && r.new_start) {
+            return vec![];
+        }
+        let (we, re) = (cfg.width_ext(), cfg.rate_ext());
+        let limbs = if cfg.d() == 1 { cfg.width() } else { we };
+        let mut v = vec![];
+        for l in 0..limbs.min(inputs.len()) {
+            if !inputs[l].is_empty() {
+                continue;
+            }
+            if r.merkle_path {
+                if l >= re {
+                    continue;
+                }
+                let pos = if r.mmcs_bit && we == 2 * re { l + re } else { l };
+                v.push((l, pos, "inherited-input[merkle]"));
+            } else if r.new_start {
+                v.push((l, l, "unfed-input[sponge-start]"));
+            } else {
+                v.push((l, l, "inherited-input[sponge]"));
+            }
+        }
+        v
+    }
+
+    /// Limb `pos` of committed permutation row `row` as a circuit-field element.
+    fn perm_limb_value(t: &Traces<B::EF>, row: usize, pos: usize) -> Option<B::EF> {
+        let pd = B::poseidon_config()?.d();
+        let r = fields::poseidon_rows::<B>(t)?.operations.get(row)?;
+        let mut c = vec![B::BF::ZERO; B::D];
+        for (i, x) in r.input_values.get(pos * pd..(pos + 1) * pd)?.iter().enumerate() {
+            *c.get_mut(i)? = *x;
+        }
+        B::EF::from_basis_coefficients_slice(&c)
+    }
+
+    /// Class F5: every slot-less limb of every permutation row × every basis unit in `units`
+    /// (a D = 1 permutation has one coefficient per limb).
+    pub fn enumerate_f5(&self, units: &[usize]) -> Vec<Fault> {
+        let pd = B::poseidon_config().map(|c| c.d()).unwrap_or(1);
+        let mut v = vec![];
+        for oi in 0..self.circuit.ops.len() {
+            for (limb, _, _) in self.slotless_limbs(oi) {
+                let mut seen = vec![];
+                for &u in units {
+                    let u = u.min(pd - 1);
+                    if !seen.contains(&u) {
+                        seen.push(u);
+                        v.push(Fault::f5(oi, limb, u));
+                    }
+                }
+            }
+        }
+        v
+    }
+
+    /// Every single fault of every class: F5 (a handful) first, then F2, F3, F4, F1.
+    pub fn enumerate_all(&self, units: &[usize]) -> Vec<Fault> {
+        let mut v = self.enumerate_f5(units);
+        v.extend(self.enumerate(units));
+        v
     }
 
     /// n-th ALU row -> index into `circuit.ops`
@@ -285,6 +412,20 @@ impl<B: Backend> Fixture<B> {
                     class: "F2",
                     table,
                     role: "private-sibling".into(),
+                }
+            }
+            Fault::F4 { op, .. } if f.as_f5().is_some() => {
+                let limb = f.as_f5().map(|x| x.1).unwrap_or(0);
+                let role = self
+                    .slotless_limbs(*op)
+                    .into_iter()
+                    .find(|(l, _, _)| *l == limb)
+                    .map(|(_, _, r)| r)
+                    .unwrap_or("not-slotless");
+                Site {
+                    class: "F5",
+                    table: self.circuit.ops.get(*op).map(|_| self.op_table(*op)).unwrap_or_default(),
+                    role: role.into(),
                 }
             }
             Fault::F4 { op, port, .. } => {
@@ -591,6 +732,47 @@ impl<B: Backend> Fixture<B> {
                     fields::add::<B>(&mut t, &l, B::BF::ONE);
                 }
                 Ok((t.clone(), self.inputs.clone(), vec![], t))
+            }
+            Fault::F4 { op, unit: u, .. } if f.as_f5().is_some() => {
+                let limb = f.as_f5().map(|x| x.1).unwrap_or(0);
+                let row = self.perm_row_of_op(*op).ok_or("not a permutation op")?;
+                let (_, pos, _) = self
+                    .slotless_limbs(*op)
+                    .into_iter()
+                    .find(|(l, _, _)| *l == limb)
+                    .ok_or("limb is fed from a slot or is private data")?;
+                let honest_row = fields::poseidon_rows::<B>(&self.honest)
+                    .and_then(|p| p.operations.get(row))
+                    .cloned()
+                    .ok_or("no honest row")?;
+                let target = Self::perm_limb_value(&self.honest, row, pos).ok_or("no honest limb")?
+                    + unit::<B>(*u);
+                // The executor may add a fixed term on top of the value it is handed (the
+                // absorb-length tag on the first capacity element of a D=1 sponge row): the value
+                // handed over is corrected once so that the COMMITTED limb is honest + unit.
+                let mut handed = target;
+                for attempt in 0..2 {
+                    let dev = Deviation {
+                        inherited: vec![(*op, limb, handed)],
+                        adapt_publics: true,
+                        ..Deviation::none()
+                    };
+                    let mut traces = self.forge(&dev)?.traces;
+                    // the recorded row names the scratch slot: restore the bookkeeping fields
+                    // (preprocessed data, fixed by the circuit) of the honest row
+                    fields::edit_poseidon::<B>(&mut traces, |p| {
+                        if let Some(r) = p.operations.get_mut(row) {
+                            r.in_ctl = honest_row.in_ctl.clone();
+                            r.input_indices = honest_row.input_indices.clone();
+                        }
+                    });
+                    let got = Self::perm_limb_value(&traces, row, pos).ok_or("no forged limb")?;
+                    if got == target || attempt == 1 {
+                        return Ok((traces.clone(), self.inputs.clone(), vec![], traces));
+                    }
+                    handed = handed - (got - target);
+                }
+                unreachable!()
             }
             Fault::F4 { op, port, unit: u } => {
                 let dev = Deviation {
